@@ -53,7 +53,9 @@ def obligations(tier):
         dict(name="dispatch", harness="C30_route.c", entry="harness_dispatch", defines=D + ["VP_WIT_NUL"], unwind=n + 3, unwindset=US,
              cbmc=["--object-bits", "10"], timeout=T, mem_gb=MM,
              desc="evhttp_dispatch_callback: two registered paths <= %d, request path <= %d symbolic bytes (escapes incl. %%2F, %%00)" % (k, n)),
-        dict(name="handle", harness="C30_route.c", entry="harness_handle", defines=D, unwind=n + 5, unwindset=US, instrument=CUTS, native=False,
+        dict(name="handle", harness="C30_route.c", entry="harness_handle", defines=D, unwind=n + 5,
+             unwindset=US + ["vp_in_set.0:80"],   # evhttp_add_header("Host", ..) checks the name against the 77 tchar characters
+             instrument=CUTS, native=False,
              cbmc=["--object-bits", "10"], timeout=T, mem_gb=MM,
              desc="evhttp_handle_request: method filter, host from URI or Host header, root + one vhost, paths/patterns <= %d, request path/host <= %d" % (k, n)),
     ]
